@@ -4,6 +4,8 @@ package verifx
 
 import (
 	"fmt"
+	"os"
+	"os/exec"
 	"strings"
 )
 
@@ -187,6 +189,38 @@ func c06HistInputs() (profiles []string, datas []string) {
 	return
 }
 
+// C06Once runs one call of the history pass (used through `vworker c06once p d` to obtain the result a FRESH process gives).
+func C06Once(p, d int) string {
+	profiles, datas := c06HistInputs()
+	r := Validate(profiles[p], datas[d])
+	if r.Panic != nil {
+		return "PANIC " + r.Panic.Sig()
+	}
+	if r.Err != nil {
+		return "ERR"
+	}
+	return r.Report
+}
+
+var c06FreshCache = map[[2]int]string{}
+
+func c06Fresh(p, d int) string {
+	k := [2]int{p, d}
+	if v, ok := c06FreshCache[k]; ok {
+		return v
+	}
+	exe, err := os.Executable()
+	if err != nil {
+		panic("harness: " + err.Error())
+	}
+	out, err := exec.Command(exe, "c06once", fmt.Sprint(p), fmt.Sprint(d)).Output()
+	if err != nil {
+		panic("harness: fresh-process reference failed: " + err.Error())
+	}
+	c06FreshCache[k] = string(out)
+	return string(out)
+}
+
 func c06RunHistory(c *Ctx, cs c06Case) {
 	profiles, datas := c06HistInputs()
 	type call struct{ p, d int }
@@ -212,9 +246,11 @@ func c06RunHistory(c *Ctx, cs c06Case) {
 	}
 	// reference: each call as the first thing after a (logically) fresh start is not available in-process; the
 	// differential oracle is: the result of a call must not depend on which call preceded it.
+	// reference = what a FRESH process returns for the call (a process-wide memo that is filled once and never
+	// changes would make every in-process reference consistently wrong)
 	ref := make([]string, len(calls))
 	for i, k := range calls {
-		ref[i] = run(k)
+		ref[i] = c06Fresh(k.p, k.d)
 	}
 	first := cs.Part
 	for second := range calls {
